@@ -105,7 +105,9 @@ def checkCases (pkg group : Text.Bytes) : List Script → List Case → Option S
   | [], c :: _ => some s!"extra testcase element {showB c.name}"
   | t :: _, [] => some s!"no testcase element for test {showB t.info.name}"
 
-/-- `printedAll` = everything printed up to the end of this group, `printedOwn` = by this group -/
+/-- `printedAll` = everything printed up to the end of this group (what the code writes: `stdOutput_` is
+    never reset — theorem `JUnit.captured_output_accumulates`), `printedOwn` = by this group only (also
+    accepted: a writer that reset the buffer per group would be as faithful) -/
 def checkFile (pkg : Text.Bytes) (flt : Option Filter) (g : Text.Bytes) (ts : List Script)
     (printedAll printedOwn : Text.Bytes) (name bytes : Text.Bytes) : Option String :=
   match parseReport bytes with
